@@ -27,6 +27,11 @@ def instances(tier):
                 out.append(f"inst!(p_write_{sfx}, check_write, {t}, {l}, {c});")
             if (tier == "thorough" and l <= 2) or ((l, c) == (1, 1) and tn == "u64"):
                 out.append(f"inst!(p_seq_{sfx}, check_seq, {t}, {l}, {c});")
+    # clone_from: (destination shape) x (source shape)
+    pairs = [((2, 3), (1, 1)), ((1, 1), (2, 3)), ((2, 3), (0, 0))] if tier == "quick" else [((2, 3), (1, 1)), ((1, 1), (2, 3)), ((2, 3), (0, 0)), ((0, 0), (2, 2)), ((3, 3), (2, 4)), ((2, 2), (2, 2))]
+    for tn in (("u64", "d") if tier == "quick" else ("u64", "d", "z")):
+        for (l, c), (l2, c2) in pairs:
+            out.append(f"inst!(p_clonefrom_{tn}_{l}_{c}_from_{l2}_{c2}, check_clone_from, {TY[tn]}, {l}, {c}, {l2}, {c2});")
     return "\n".join(out)
 if __name__ == "__main__":
     print(instances(sys.argv[1]))
